@@ -110,6 +110,9 @@ func execBlock(c BlockCase) kit.Outcome {
 		o.Fail = "a blocking pop with a timeout of at most 2 s did not return within 8 s"
 		return o
 	}
+	// whatever a pop that has returned may still be doing in the background must be over before the
+	// elements are counted (an element taken after its popper gave up is a lost element)
+	time.Sleep(350 * time.Millisecond)
 	close(stopJ)
 	jwg.Wait()
 	if maxJitter > 300*time.Millisecond {
@@ -193,5 +196,5 @@ func execBlock(c BlockCase) kit.Outcome {
 }
 
 func TestBlocking(t *testing.T) {
-	kit.Check(t, kit.Spec[BlockCase]{Sub: "block", Quick: 4, Thorough: 60, Gen: GenBlock, Exec: execBlock, NoShrink: true})
+	kit.Check(t, kit.Spec[BlockCase]{Sub: "block", Quick: 8, Thorough: 100, Gen: GenBlock, Exec: execBlock, NoShrink: true})
 }
